@@ -39,7 +39,8 @@ func newFF16(dataShards, parityShards int, opt options) (*leopardFF16, error) {
 		return nil, ErrInvShardNum
 	}
 
-	if dataShards+parityShards > 65536 {
+	if dataShards > order || parityShards > order || dataShards+ceilPow2(parityShards) > order {
+		// Parity is rounded up to a power of two, and must fit in the field with the data.
 		return nil, ErrMaxShardNum
 	}
 
